@@ -689,6 +689,8 @@ class FPNum:
         
         assert(a.p == b.p)
 
+        if (a.m == 0 and b.m == 0): return 0 # +0 and -0 denote the same value
+
         if (a.m == b.m):  abs_cmp  = 0
         elif (a.m > b.m): abs_cmp = 1
         elif (a.m < b.m): abs_cmp = -1
